@@ -1,6 +1,12 @@
 use fail::fail_point;
+#[cfg(kani)]
+use crate::verif_fs::LruCache;
+#[cfg(not(kani))]
 use lru::LruCache;
 use snap::raw::{Decoder as SnappyDecoder, Encoder as SnappyEncoder};
+#[cfg(kani)]
+use crate::verif_fs::{self as fs, File};
+#[cfg(not(kani))]
 use std::fs::{self, File};
 use std::io::Error as IoError;
 use std::io::{Read, Write};
